@@ -126,39 +126,6 @@ fn main() {
         if !probe.violations.keys().any(|k| k.contains(".access")) { eprintln!("HARNESS-ERROR canary: wrong expectation not flagged"); std::process::exit(3); }
     }
 
-    let n = ctx.tier.pick(40_000, 1_200_000);
-    run_cases(&ctx, &replay, &mut rep, "generated", n, |rng, rep, _| {
-        let mut m = gen::gen_class(rng, &cfg);
-        // every fifth class: names, descriptors and strings redrawn from cf::hostile (NUL, encoding boundaries, lone / reversed
-        // surrogates, one-character and very long names, class names filling a descriptor edge to edge)
-        if rng.chance(1, 5) { let lm = if rng.chance(1, 25) { 5000 } else { 60 }; for t in cf::hostile::hostilise(rng, &mut m, (1, 3), lm) { rep.seen("hostile_names", t); } rep.count("shape.hostile_names"); }
-        let m = m;
-        let feats = features::features(&m);
-        if m.methods.iter().any(|x| x.name.ascii() == Some("siblings$dyn")) { rep.count("shape.sibling_dynamics"); }
-        { let deep = |a: &Vec<Annotation>| a.iter().any(|x| x.type_.ascii() == Some("Ldeep/Anno;"));
-          if deep(&m.vis_annotations) || deep(&m.invis_annotations) || m.fields.iter().any(|f| deep(&f.vis_annotations) || deep(&f.invis_annotations)) || m.methods.iter().any(|f| deep(&f.vis_annotations) || deep(&f.invis_annotations)) { rep.count("shape.annotation_nested_40_to_200_levels"); } }
-        let mut any = false;
-        for li in 0..3u64 {
-            let layout = if li == 0 { emit::Layout::canonical() } else { let mut l = emit::Layout::random(rng.next_u64()); if rng.chance(1, 4) { l.pool_filler = 250 + rng.below(20); } l };
-            let lname = if li == 0 { "canonical".to_string() } else { format!("random seed={} filler={}", layout.seed, layout.pool_filler) };
-            let bytes = match emit::emit(&m, &layout) { Ok(b) => b, Err(e) => { rep.count("emit.skipped"); rep.note(format!("emit skipped: {}", template(&e))); continue; } };
-            // harness self-check: the independent parser must read back the model exactly
-            match parse::parse(&bytes) {
-                Ok(p) if p == m => {}
-                Ok(p) => { let d = diff::diff(&m, &p, 3); eprintln!("HARNESS-ERROR parse(emit(M)) != M at {:?} (case {:?})", d, rep.cur); std::process::exit(3); }
-                Err(e) => { eprintln!("HARNESS-ERROR parse(emit(M)) failed: {e} (case {:?}, layout {lname})", rep.cur); std::process::exit(3); }
-            }
-            rep.eval(); any = true;
-            if li > 0 { rep.count("layouts.random"); if layout.pool_filler > 0 { rep.count("layouts.pool_over_255"); } }
-            judge(rep, "generated", &m, &bytes, &lname);
-            if li == 0 && bytes.len() < 600 { rep.sample(|| json!({"kind": "generated class", "bytes_hex": hex(&bytes), "features": feats.iter().take(40).collect::<Vec<_>>() })); }
-        }
-        if any {
-            for f in &feats { let (set, member) = f.split_once('.').unwrap_or(("misc", f)); rep.seen(set, member); }
-            if m.methods.iter().any(|x| x.code.is_some()) || !m.fields.is_empty() { rep.nontrivial(features::fingerprint(&feats)); }
-        }
-    });
-
     // large u4-counted payloads (unknown attributes at every level, SourceDebugExtension): "unrecognised attributes byte-for-byte"
     let nlarge = ctx.tier.pick(160, 6_000);
     run_cases(&ctx, &replay, &mut rep, "large-payload", nlarge, |rng, rep, _| {
@@ -214,6 +181,42 @@ fn main() {
             }
         }
     });
+
+    // the bulk workload last: the three small workloads above carry coverage obligations of their own and must not be starved by the
+    // wall-clock budget on a loaded machine (the budget only ever ends generation early)
+    let n = ctx.tier.pick(40_000, 1_200_000);
+    run_cases(&ctx, &replay, &mut rep, "generated", n, |rng, rep, _| {
+        let mut m = gen::gen_class(rng, &cfg);
+        // every fifth class: names, descriptors and strings redrawn from cf::hostile (NUL, encoding boundaries, lone / reversed
+        // surrogates, one-character and very long names, class names filling a descriptor edge to edge)
+        if rng.chance(1, 5) { let lm = if rng.chance(1, 25) { 5000 } else { 60 }; for t in cf::hostile::hostilise(rng, &mut m, (1, 3), lm) { rep.seen("hostile_names", t); } rep.count("shape.hostile_names"); }
+        let m = m;
+        let feats = features::features(&m);
+        if m.methods.iter().any(|x| x.name.ascii() == Some("siblings$dyn")) { rep.count("shape.sibling_dynamics"); }
+        { let deep = |a: &Vec<Annotation>| a.iter().any(|x| x.type_.ascii() == Some("Ldeep/Anno;"));
+          if deep(&m.vis_annotations) || deep(&m.invis_annotations) || m.fields.iter().any(|f| deep(&f.vis_annotations) || deep(&f.invis_annotations)) || m.methods.iter().any(|f| deep(&f.vis_annotations) || deep(&f.invis_annotations)) { rep.count("shape.annotation_nested_40_to_200_levels"); } }
+        let mut any = false;
+        for li in 0..3u64 {
+            let layout = if li == 0 { emit::Layout::canonical() } else { let mut l = emit::Layout::random(rng.next_u64()); if rng.chance(1, 4) { l.pool_filler = 250 + rng.below(20); } l };
+            let lname = if li == 0 { "canonical".to_string() } else { format!("random seed={} filler={}", layout.seed, layout.pool_filler) };
+            let bytes = match emit::emit(&m, &layout) { Ok(b) => b, Err(e) => { rep.count("emit.skipped"); rep.note(format!("emit skipped: {}", template(&e))); continue; } };
+            // harness self-check: the independent parser must read back the model exactly
+            match parse::parse(&bytes) {
+                Ok(p) if p == m => {}
+                Ok(p) => { let d = diff::diff(&m, &p, 3); eprintln!("HARNESS-ERROR parse(emit(M)) != M at {:?} (case {:?})", d, rep.cur); std::process::exit(3); }
+                Err(e) => { eprintln!("HARNESS-ERROR parse(emit(M)) failed: {e} (case {:?}, layout {lname})", rep.cur); std::process::exit(3); }
+            }
+            rep.eval(); any = true;
+            if li > 0 { rep.count("layouts.random"); if layout.pool_filler > 0 { rep.count("layouts.pool_over_255"); } }
+            judge(rep, "generated", &m, &bytes, &lname);
+            if li == 0 && bytes.len() < 600 { rep.sample(|| json!({"kind": "generated class", "bytes_hex": hex(&bytes), "features": feats.iter().take(40).collect::<Vec<_>>() })); }
+        }
+        if any {
+            for f in &feats { let (set, member) = f.split_once('.').unwrap_or(("misc", f)); rep.seen(set, member); }
+            if m.methods.iter().any(|x| x.code.is_some()) || !m.fields.is_empty() { rep.nontrivial(features::fingerprint(&feats)); }
+        }
+    });
+
 
     let mut meta = Meta::new("exploration", "seeded generator of well-formed class models (versions 45..67, all opcodes/attribute kinds) x 3 layouts (canonical + 2 random: pool order, unused/duplicate entries, indices pushed over 255, attribute order, ldc/ldc_w, xload_n/xload/wide, goto/goto_w, iinc/wide iinc, frame encodings, split line tables) plus the vendored javac corpus (as compiled and re-emitted under random layouts); a case is non-trivial if the class has a field or a method with code; distinct = distinct feature-set fingerprint (opcode families, attribute kinds, constant kinds, frame kinds, type-annotation targets, version, size bucket)")
         .assume("the independent parser and emitter (harness/cf) implement JVMS chapter 4 correctly; they are cross-checked against each other on every case and against javac output")
